@@ -255,14 +255,17 @@ INTERNAL_FAULTS = (
     [{'kind': 'RECURSION', 'limit': n} for n in (60, 90, 120, 160, 220)] +
     [{'kind': 'ROM-DEST'}, {'kind': 'ROM-DEST'}, {'kind': 'TMP-ERR'},
      {'kind': 'TMP-ERR'}, {'kind': 'WARN-STREAM-ERR'},
-     {'kind': 'WARN-STREAM-ERR'}, {'kind': 'CODE-TOO-BIG'}]
+     {'kind': 'WARN-STREAM-ERR'}, {'kind': 'CODE-TOO-BIG'},
+     {'kind': 'OUT-FLUSH-ERR'}, {'kind': 'TOKENS-EDITED'},
+     {'kind': 'TOKENS-EDITED'}]
 )
 CLI_INTERNAL_FAULTS = (
     [{'kind': 'ARG-BAD', 'how': h}
      for h in ('keep-names-missing', 'indentwidth-str', 'src-garbage',
                'src-missing', 'src-lexerror', 'src-parseerror')] +
     [{'kind': 'RECURSION', 'limit': n} for n in (60, 90, 120, 160, 220)] +
-    [{'kind': 'TMP-ERR'}, {'kind': 'CODE-TOO-BIG'}]
+    [{'kind': 'TMP-ERR'}, {'kind': 'CODE-TOO-BIG'}, {'kind': 'OUT-FLUSH-ERR'},
+     {'kind': 'OUT-FLUSH-ERR'}]
 )
 BUILD_INTERNAL_FAULTS = (
     [{'kind': 'ARG-BAD', 'how': h}
@@ -270,7 +273,7 @@ BUILD_INTERNAL_FAULTS = (
                'lua-format', 'require-missing', 'out-garbage',
                'keep-names-missing', 'lua-syntax-error', 'out-wrong-ext')] +
     [{'kind': 'RECURSION', 'limit': n} for n in (60, 90, 120, 160, 220)] +
-    [{'kind': 'TMP-ERR'}, {'kind': 'CODE-TOO-BIG'}]
+    [{'kind': 'TMP-ERR'}, {'kind': 'CODE-TOO-BIG'}, {'kind': 'OUT-FLUSH-ERR'}]
 )
 
 
@@ -478,6 +481,17 @@ def _setup(w, sc):
             elif how == 'dest-truncated-png':
                 w.put(dest_rel, refcodec.encode_p8png(cart)[:900])
         cls = writer_class(wname)
+        if fk == 'TOKENS-EDITED' and sc['fmt'] == 'p8' and \
+                wname in (None, 'default', 'LuaEchoWriter'):
+            # this very game was saved before, with the same writer and the
+            # same arguments; then its program was edited through the token
+            # list, and no longer parses
+            w.mkdir('out')
+            pfile.to_file(g, w.p('out/earlier_save_of_this_game.p8'),
+                          lua_writer_cls=cls, lua_writer_args=wargs)
+            from pico8.lua import lexer as _lexer
+            g.lua.tokens.append(_lexer.TokSymbol(b'('))
+            _TOKENS_EDITED[0] = True
         if route == 'lib-twice':
             # an earlier, successful write (not under fault injection)
             first = refcodec.cart_from_spec(sc['prior_cart'])
@@ -571,7 +585,11 @@ def _setup(w, sc):
     return dest_rel, op
 
 
+_TOKENS_EDITED = [False]
+
+
 def execute(sc, profile=False):
+    _TOKENS_EDITED[0] = False
     res = core.new_result()
     ev = res['events']
     fault = sc.get('fault')
@@ -624,6 +642,22 @@ def execute(sc, profile=False):
                     _Broken.hits += 1
                     raise BrokenPipeError('injected: error stream is closed')
             _util._error_stream = _Broken()
+        if fk == 'OUT-FLUSH-ERR':
+            # the message stream is a block-buffered pipe whose reader has
+            # gone: writes are accepted, a flush fails
+            from pico8 import util as _util
+
+            class _Unflushable:
+                flushes = 0
+
+                def write(self, msg):
+                    return len(msg)
+
+                def flush(self):
+                    _Unflushable.flushes += 1
+                    raise BrokenPipeError('injected: the message stream '
+                                          'cannot be flushed')
+            _util._write_stream = _Unflushable()
         tmp_saved = None
         tmp_hits = [0]
         if fk == 'TMP-ERR':
@@ -673,6 +707,14 @@ def execute(sc, profile=False):
             fired = fk if tmp_hits[0] else None
         elif fk == 'WARN-STREAM-ERR':
             fired = fk if _Broken.hits else None
+        elif fk == 'OUT-FLUSH-ERR':
+            fired = fk if _Unflushable.flushes else None
+        elif fk == 'TOKENS-EDITED':
+            # (a fact of the scenario, whatever status is reported: the code
+            # handed to the .p8 encoder does not re-parse)
+            fired = fk if _TOKENS_EDITED[0] else None
+            if fired:
+                core.bump(res['probes'], 'tokens-edited-after-a-save')
         elif fk != 'NONE':
             fired = fk if failed else None
         if fired:
